@@ -13,16 +13,23 @@
   Each stage is modelled by its EDIT DISCIPLINE as mongomock/aggregate.py has it today
   (table `Disc`, reference value `Disc.reference`, re-extracted from the source on every run into
   `Generated/AggDiscipline.lean`; the reference is the discipline AFTER the repairs
-  `sample-pops-size`, `facet-sibling-*`, `literal-written`, the table keeps the old behaviour
-  expressible so that a regression shows as a different table):
+  `sample-pops-size`, `facet-sibling-*`, `literal-written` and the C03 repairs of `$addFields`
+  (every level of a dotted name is copied before it is written) and `$unwind`
+  (`includeArrayIndex`), the table keeps the old behaviour expressible so that a regression shows
+  as a different table):
     * `aggregate` (collection.py:1826-1828) works on `find()` copies (deep, new objects);
     * `$match/$sort/$skip/$limit/$sample` hand on the same document objects in a new list;
     * `$sample` reads `size` from the caller's option dict (it used to POP it: `samplePops`);
-    * `$addFields/$set` (1552-1570): `dict(doc)` (shallow), a dotted path then descends into the
-      SHARED sub-document and writes there;
+    * `$addFields/$set`: `dict(doc)` (shallow), and along a dotted name EVERY level is a
+      `copy.copy` of the sub-document found there (a new dict around the same values) which is
+      written into the copy above it: no object that existed before the stage is written (it used
+      to descend into the SHARED sub-document and write there: `addFieldsNested` = `.none`);
     * `$lookup` (1154-1164) writes `doc[as]` into the input document itself, the joined documents
       are `find()` copies;
-    * `$unwind` (1379-1420) deep-copies the document but re-attaches the ORIGINAL element;
+    * `$unwind` deep-copies the document but re-attaches the ORIGINAL element; a document kept by
+      `preserveNullAndEmptyArrays` is handed on as it is, unless an `includeArrayIndex` is to be
+      written: then it is a deep copy that receives the (null) index (`unwindIndexed`); the
+      sub-documents a dotted index name goes through are created inside the copy;
     * `$project/$replaceRoot/$count` build new top-level documents around shared values;
     * expressions: a field path / `$$ROOT` evaluates to the very sub-object, `$literal` and
       constant lists to a deep copy of the pipeline's object (they used to evaluate to the
@@ -219,8 +226,14 @@ structure Disc where
   lookupWritesInput : Bool
   /-- `$addFields`: the top-level copy (`dict(doc)` → shallow) -/
   addFieldsTop : Copy
+  /-- `$addFields` on a dotted name: how the sub-document found at each level is taken before it
+      is written (`copy.copy` → shallow; `.none` = the shared object itself is written into) -/
+  addFieldsNested : Copy
   /-- `$unwind`: the per-element copy of the document (`copy.deepcopy` → deep) -/
   unwindDoc : Copy
+  /-- `$unwind` with `includeArrayIndex`: how a document KEPT by `preserveNullAndEmptyArrays` is
+      taken before the (null) index is written into it (`copy.deepcopy` → deep) -/
+  unwindIndexed : Copy
   /-- `$sample` removes `size` from the option dict it was given (`options.pop`) -/
   samplePops : Bool
   /-- `$facet` hands every branch the same list (true) rather than a deep copy per branch -/
@@ -236,13 +249,17 @@ structure Disc where
 /-- the discipline of /repo as read (see the header); `Generated.AggDiscipline` is compared with it -/
 def Disc.reference : Disc :=
   { source := .deep, lookupForeign := .deep, lookupWritesInput := true, addFieldsTop := .shallow,
-    unwindDoc := .deep, samplePops := false, facetSharesInput := false, literal := .deep,
-    constArray := .deep, outStores := .deep }
+    addFieldsNested := .shallow, unwindDoc := .deep, unwindIndexed := .deep, samplePops := false,
+    facetSharesInput := false, literal := .deep, constArray := .deep, outStores := .deep }
 
 /-- the discipline before the repairs (kept for the regression witnesses of Props/C16.lean) -/
 def Disc.unrepaired : Disc :=
   { Disc.reference with samplePops := true, facetSharesInput := true, literal := .none,
-                        constArray := .none }
+                        constArray := .none, addFieldsNested := .none }
+
+/-- the reference discipline WITHOUT the per-branch copy of `$facet`: what the stages' own
+    discipline gives when every sub-pipeline is handed the same list -/
+def Disc.sharing : Disc := { Disc.reference with facetSharesInput := true }
 
 /-! ### the world -/
 
@@ -378,15 +395,16 @@ mutual
         | .error err => .error err
 end
 
-/-! ### `$addFields`: the walk along a dotted path (aggregate.py:1563-1569) -/
+/-! ### `$addFields`: the walk along a dotted name -/
 
 /-- `{p1: {p2: … v}}` out of new dicts -/
 def nestNew : List String → HV → Nat → HV × Nat
   | [], v, n => (v, n)
   | k :: r, v, n => (.node (.tmp n) true [(k, (nestNew r v (n + 1)).1)], (nestNew r v (n + 1)).2)
 
-/-- below the top level: `cur` is an object that was already there (shared with the input
-    document): writes go through `World.mutate`.  Returns the write to perform. -/
+/-- `addFieldsNested = .none` (the former discipline): below the top level `cur` is an object that
+    was already there (shared with the input document): writes go through `World.mutate`.
+    Returns the write to perform. -/
 def deepTarget : HV → List String → HV → Nat → Option (Id × String × HV × Nat)
   | _, [], _, _ => none
   | .node id true _, [k], v, n => some (id, k, v, n)
@@ -399,8 +417,9 @@ def deepTarget : HV → List String → HV → Nat → Option (Id × String × H
 /-- does the written value contain the object written into (Python would build a cycle) -/
 def wouldCycle (id : Id) (v : HV) : Bool := v.ids.contains id
 
-/-- set `path := v` on the `j`-th document under construction -/
-def setOut (w : World) (j : Nat) (path : List String) (v : HV) : R World :=
+/-- the former discipline: set `path := v` on the `j`-th document under construction, descending
+    into the sub-documents that are there -/
+def setOutShared (w : World) (j : Nat) (path : List String) (v : HV) : R World :=
   match w.out[j]?, path with
   | some top, [k] => .ok { w with out := w.out.set j (top.setLocal k v) }
   | some top, k :: r =>
@@ -415,6 +434,31 @@ def setOut (w : World) (j : Nat) (path : List String) (v : HV) : R World :=
                          nextTmp := (nestNew r v w.nextTmp).2 }
   | _, _ => .ok w
 
+/-- `x[p1][p2]…[pn] = v` inside an object `x` one holds directly (a private, just allocated
+    object): at every level the sub-document found there is taken by `c` (`$addFields`: a
+    `copy.copy`; `.none`: the sub-document itself, which is right only where it is private too —
+    inside a deep copy), anything that is not a document is replaced by new dicts -/
+def setPathCopy (c : Copy) (v : HV) : List String → HV → Nat → HV × Nat
+  | [], x, n => (x, n)
+  | [k], x, n => (x.setLocal k v, n)
+  | k :: k2 :: r, x, n =>
+    match x.get k with
+    | some (.node i true ks) =>
+      (x.setLocal k (setPathCopy c v (k2 :: r) (c.run (.node i true ks) n).1 (c.run (.node i true ks) n).2).1,
+       (setPathCopy c v (k2 :: r) (c.run (.node i true ks) n).1 (c.run (.node i true ks) n).2).2)
+    | _ => (x.setLocal k (nestNew (k2 :: r) v n).1, (nestNew (k2 :: r) v n).2)
+
+/-- set `path := v` on the `j`-th document under construction: the document is a new object of
+    the stage, and so is every level below it that the name goes through -/
+def setOut (D : Disc) (w : World) (j : Nat) (path : List String) (v : HV) : R World :=
+  match D.addFieldsNested with
+  | .none => setOutShared w j path v
+  | c =>
+    match w.out[j]? with
+    | some top => .ok { w with out := w.out.set j (setPathCopy c v path top w.nextTmp).1,
+                               nextTmp := (setPathCopy c v path top w.nextTmp).2 }
+    | none => .ok w
+
 /-- one field of `$addFields` over all documents (inner loop of 1557-1569) -/
 def addField (D : Disc) (w : World) (path : List String) (e : AExpr) : Nat → Nat → R World
   | 0, _ => .ok w
@@ -426,7 +470,7 @@ def addField (D : Disc) (w : World) (path : List String) (e : AExpr) : Nat → N
       | .error err => .error err
       | .ok (none, n') => addField D { w with nextTmp := n' } path e fuel (j + 1)
       | .ok (some v, n') =>
-        match setOut { w with nextTmp := n' } j path v with
+        match setOut D { w with nextTmp := n' } j path v with
         | .ok w' => addField D w' path e fuel (j + 1)
         | .error err => .error err
 termination_by structural fuel => fuel
